@@ -209,6 +209,11 @@ func (f changeFinder) walkStruct(from, to *value) bool {
 			pos := f.Interface().(token.Pos)
 			if pos.IsValid() {
 				starts[i] = pos
+			} else {
+				// A token that was absent has no position of its own: its
+				// range begins where the last node ended (not at the start
+				// of the file, which is what position zero would mean).
+				starts[i] = lastEnd
 			}
 		default:
 			// Otherwise the start position is the end position of the last
